@@ -82,6 +82,8 @@ func init() {
 			{ID: "R04.7", Title: "slicing and indexing of strings on the parsing path is bounded by decode widths or a length test", Floor: 8, Run: ruleR047},
 			{ID: "R04.8", Title: "the end-of-input mark cannot be forged by a character of the input", Floor: 1, Run: ruleR048},
 			{ID: "R04.9", Title: "error decoration that scales with the configuration is added once, not once per nesting level", Floor: 1, Run: ruleR049},
+			{ID: "R04.10", Title: "optional handlers are called at Generate time only under their nil test", Floor: 1, Run: ruleR0410},
+			{ID: "R04.11", Title: "a scope lookup asks its parent scope at most once on every path (no exponential name resolution)", Floor: 4, Run: ruleR0411},
 			{ID: "R03.3", Title: "operator levels are entered in range of the operator table (see C03)", Floor: 3, Run: ruleR033},
 		},
 	})
